@@ -206,6 +206,12 @@ def cases(ctx):
     twins.append(dict(root=F("P", [R(1, 1, [F("a b")]), R(1, 1, [F("a"), F("b")]), R(0, 1, [F("b c")]), R(0, 1, [F("b"), F("c")]) if False else R(0, 1, [F("c"), F("d")])]),
                       ctcs=[("c0", spec.OP("IMPLIES", spec.T("a"), spec.T("b"))), ("c1", spec.OP("IMPLIES", spec.T("b"), spec.T("c"))),
                             ("c2", spec.OP("IMPLIES", spec.T("a"), spec.T("b")))]))
+    # two different names that str.casefold() (not str.lower()) would identify
+    sz = dict(root=F("P", [R(0, 1, [F("Maße-Prüfung")]), R(0, 1, [F("Masse-Prüfung")]), R(0, 1, [F("B")])]),
+              ctcs=[("c0", spec.OP("IMPLIES", spec.T("Maße-Prüfung"), spec.T("B")))])
+    sz2 = copy.deepcopy(sz)
+    sz2["ctcs"][0] = ("c0", spec.OP("IMPLIES", spec.T("Masse-Prüfung"), spec.T("B")))
+    yield "casefold-operand", sz, sz2
     for m in twins:
         yield "twins-self", m, copy.deepcopy(m)
         for k in range(6):
@@ -241,8 +247,24 @@ def cases(ctx):
             yield "ctc-multiplicity-permuted", ma, permuted(mb, g.rng)
 
 
+def numeric_cardinalities(st):
+    """equal objects have equal hashes also when a cardinality is spelt 2.0 or True (readers pass the JSON numbers through)"""
+    F, R = spec.F, spec.R
+    for a, b, label in [((1, 2), (1.0, 2.0), "float cardinalities"), ((0, 1), (False, True), "boolean cardinalities")]:
+        ma = dict(root=F("P", [R(a[0], a[1], [F("X"), F("Y")])]), ctcs=[])
+        mb = dict(root=F("P", [R(b[0], b[1], [F("Y"), F("X")])]), ctcs=[])
+        fa, fb = spec.build_fm(ma), spec.build_fm(mb)
+        ra, rb = fa.get_relations()[0], fb.get_relations()[0]
+        for x, y, what in ((ra, rb, "relation"), (fa, fb, "model")):
+            if x == y and hash(x) != hash(y):
+                st.oracle_fail("numeric-cards", label, "equal-objects-equal-hashes", f"{what} level, {label}")
+            if x == y and len({x, y}) != 1:
+                st.oracle_fail("numeric-cards", label, "permuted-copy-set-dict", f"{what} level, {label}")
+
+
 def run(ctx):
     st = ctx.suite("Q2")
+    numeric_cardinalities(st)
     for label, a, b in cases(ctx):
         req = sx.dumps(tag("eqq", spec.fm_sx(a), spec.fm_sx(b)))
         mrep = ctx.model.call_raw(req)
